@@ -430,6 +430,8 @@ theorem default_outfile (base : List Char) (hb : '/' ∉ base) :
     unfold joinPath
     rw [if_neg (by rw [hh]; simp), if_neg (by rw [hde, hdl]; simp)]
 
+deriving instance DecidableEq for Except
+
 /-! ### command line = library -/
 
 variable {Mol Mg T S Out : Type}
@@ -458,6 +460,22 @@ private theorem loadMols_ok (L : Lib Mol Mg T S Out) :
     | cons x xs =>
       obtain ⟨_, h2, h3⟩ := h
       simp [loadMols, h2, ih xs h3]
+
+private theorem loadPairs_ok (L : Lib Mol Mg T S Out) :
+    ∀ (species : List (String × String × String)) (nm : List (String × Mol)),
+      Loads L species nm → loadPairs L species = .ok nm := by
+  intro species
+  induction species with
+  | nil => intro nm h; cases nm with
+    | nil => rfl
+    | cons _ _ => exact absurd h (by simp [Loads])
+  | cons sp sps ih =>
+    intro nm h
+    cases nm with
+    | nil => exact absurd h (by simp [Loads])
+    | cons x xs =>
+      obtain ⟨h1, h2, h3⟩ := h
+      simp [loadPairs, h1, h2, ih xs h3]
 
 private theorem endSet_new (d : List (String × Mol)) (k : String) (v : Mol)
     (h : ∀ e ∈ d, e.1 ≠ k) : endSet d k v = d ++ [(k, v)] := by
@@ -509,31 +527,67 @@ private theorem attach_eq (L : Lib Mol Mg T S Out) :
       | error e => rfl
       | ok m' => exact ih m' (fun e he => h e (List.mem_cons_of_mem _ he))
 
-/-- **command line = library** (`cli_equals_library`): when every `--mol` triple loads, the start
-    topologies carry pairwise different molecule names, and each end molecule carries the SAME name as
-    its start topology (the hypothesis under which `add_end_molecules` finds it; `auto_map` itself
-    attaches by the start topology's name), `auto_map` is the library workflow
-    `Manager.from_files → add_end_molecules → align_molecules → calculate_exchange_maps(scale) →
-    extrapolate_system(out)` on the same random state, with `out` the requested path or
-    `mapped_<input name>` beside the input — including every error raised after loading. -/
+/-- **command line = library** (`cli_equals_library`): when every `--mol` triple loads and the
+    start topologies carry pairwise different molecule names, `auto_map` IS the library workflow
+    `Manager.from_files → attach each end molecule to the species of ITS triple's start topology →
+    align_molecules → calculate_exchange_maps(scale) → extrapolate_system(out)` on the same random
+    state, with `out` the requested path or `mapped_<input name>` beside the input — including every
+    error raised after loading.  Nothing is assumed about the name the end molecule carries in its own
+    topology (it may differ from the start topology's: the explicit triple is what pairs the files).
+    `hnodup` cannot be dropped: two triples for one species make `auto_map` keep the last one only
+    (dictionary), whereas attaching twice raises `ValueError` in `Alignment.end`. -/
 theorem cli_equals_library (L : Lib Mol Mg T S Out) (ref : List Char)
     (species : List (String × String × String)) (scale : S) (outfile : Option (List Char)) (t : T)
     (nm : List (String × Mol))
-    (hload : Loads L species nm) (hnodup : (nm.map (·.1)).Nodup)
-    (hsame : ∀ e ∈ nm, L.molName e.2 = e.1) :
+    (hload : Loads L species nm) (hnodup : (nm.map (·.1)).Nodup) :
     autoMap L ref species scale outfile t =
       libraryWorkflow L ref species scale (outPath ref outfile) t := by
   have h1 := loadEnds_ok L species nm [] hload (by simpa using hnodup)
-  have h2 := loadMols_ok L species nm hload
+  have h2 := loadPairs_ok L species nm hload
   simp only [List.nil_append] at h1
   simp only [autoMap, libraryWorkflow, h1, h2]
+
+/-- … and when, in addition, each end molecule carries the same name as its start topology, that
+    library workflow is the README's `add_end_molecules` form (`add_end_molecule` looks the species up
+    by the END molecule's own name, so this hypothesis is exactly what it needs) -/
+theorem library_own_name (L : Lib Mol Mg T S Out) (ref : List Char)
+    (species : List (String × String × String)) (scale : S) (out : List Char) (t : T)
+    (nm : List (String × Mol))
+    (hload : Loads L species nm) (hsame : ∀ e ∈ nm, L.molName e.2 = e.1) :
+    libraryWorkflow L ref species scale out t = libraryWorkflowOwnName L ref species scale out t := by
+  have h1 := loadPairs_ok L species nm hload
+  have h2 := loadMols_ok L species nm hload
+  simp only [libraryWorkflow, libraryWorkflowOwnName, h1, h2]
   cases L.managerFromFiles (String.ofList ref) (species.map (·.1)) with
   | error e => rfl
   | ok m => simp only [attach_eq L _ m hsame]
 
+/-- a library in which the end molecule of the only triple is called differently from its start
+    topology (`"VTE"` vs `"E"`): the hypotheses of `cli_equals_library` hold, `add_end_molecules` would
+    raise `KeyError`, `auto_map` and the by-start-name workflow succeed -/
+private def libEx : Lib String (List (String × String)) Unit Unit (List (String × String)) where
+  topName := fun f => if f == "vitamin_E_CG.itp" then .ok "E" else .error .IOError
+  molFromFiles := fun g t => if g == "VTE_AA.gro" && t == "VTE_AA.itp" then .ok "VTE" else .error .IOError
+  molName := id
+  managerFromFiles := fun _ _ => .ok []
+  hasSpecies := fun _ n => n == "E"
+  setEnd := fun m n mol => .ok (m ++ [(n, mol)])
+  align := fun m t => .ok (m, t)
+  maps := fun _ m t => .ok (m, t)
+  extrapolate := fun m _ => .ok m
+
+example : Loads libEx [("vitamin_E_CG.itp", "VTE_AA.gro", "VTE_AA.itp")] [("E", "VTE")] := by
+  simp [Loads, libEx]
+
+example :
+    autoMap libEx "s.gro".toList [("vitamin_E_CG.itp", "VTE_AA.gro", "VTE_AA.itp")] () none ()
+      = .ok [("E", "VTE")] ∧
+    libraryWorkflowOwnName libEx "s.gro".toList [("vitamin_E_CG.itp", "VTE_AA.gro", "VTE_AA.itp")] ()
+      "mapped_s.gro".toList () = .error .KeyError := by
+  decide
+
 /-! ### non-vacuity -/
 
-deriving instance DecidableEq for Except
 
 /-- a directory with species `A` (start `a.itp`, end `A.itp` + `A.gro`), a solvent `W` with a start
     topology only (`w.itp`), a distractor topology `x.itp` of a species not in the system, a
